@@ -777,12 +777,18 @@ def rule_r7(ctx) -> List[R.Inst]:
     file_r = M.mods[rd.mod].rel
     sl = {}
     byname = {}
+    pairs_ = []
     for n in walk_no_nested(rd.node):
-        if isinstance(n, ast.Assign) and isinstance(n.targets[0], ast.Name) and isinstance(n.value, ast.Subscript) and \
-                isinstance(n.value.slice, ast.Slice):
-            lo, hi = n.value.slice.lower, n.value.slice.upper
+        if isinstance(n, ast.Assign) and len(n.targets) == 1:
+            if isinstance(n.targets[0], ast.Tuple) and isinstance(n.value, ast.Tuple) and len(n.targets[0].elts) == len(n.value.elts):
+                pairs_ += [(t, v, n) for t, v in zip(n.targets[0].elts, n.value.elts)]      # a, b = x[1:4], x[4:6]
+            else:
+                pairs_.append((n.targets[0], n.value, n))
+    for t_, v_, n in pairs_:
+        if isinstance(t_, ast.Name) and isinstance(v_, ast.Subscript) and isinstance(v_.slice, ast.Slice):
+            lo, hi = v_.slice.lower, v_.slice.upper
             if isinstance(lo, ast.Constant) and isinstance(hi, ast.Constant):
-                byname[n.targets[0].id] = (lo.value, hi.value, n)
+                byname[t_.id] = (lo.value, hi.value, n)
     # which slice becomes which field of the per-line record: dict(measure=<x>, channel=<y>, ...) — the locals' names do not matter
     from .. import sympaths as SP
     for n in walk_no_nested(rd.node):
@@ -944,7 +950,7 @@ SPECS = [
     RuleSpec("C04.R2", rule_r2, 6, "A7", "role names used by reader and writer are values of _HEADER"),
     RuleSpec("C04.R3", rule_r3, 9, "A8", "dispatch: hex tempo / #BPMxx lookup / lane column / LN marker pairing on one lane / #WAV sample"),
     RuleSpec("C04.R4", rule_r4, 7, "A1", "header fields: same field read and written; other headers retained; initial tempo at 0"),
-    RuleSpec("C04.R5", rule_r5, 5, "A8", "objects timed by the un-reseated map from sorted changes at 0 ms; tempo list from the reseated map"),
+    RuleSpec("C04.R5", rule_r5, 3, "A8", "objects timed by the un-reseated map from sorted changes at 0 ms; tempo list from the reseated map"),
     RuleSpec("C04.R6", rule_r6, 1, "A5", "LN pairing must not depend on the order of the lines"),
     RuleSpec("C04.R7", rule_r7, 5, "A7", "line slicing '#mmmcc:' and slot position i/n * beats-per-measure"),
     RuleSpec("C04.R9", rule_r9, 1, "A8", "every data line reaches the note reader (no keyed overwrite)"),
